@@ -131,17 +131,17 @@ def h1_handshake_validation(ui: int, ci: int, ki: int, vi: int, mi: int, hv: int
 
 @harness(
     "C11",
-    dom={"proto": (1, 2), "vi": (0, 3), "scheme": (0, 1)},
-    witnesses=[{"proto": 1, "vi": 1, "scheme": 0}, {"proto": 2, "vi": 0, "scheme": 0}],
+    dom={"proto": (1, 2), "vi": (0, 3), "scheme": (0, 1), "key": "bool"},
+    witnesses=[{"proto": 1, "vi": 1, "scheme": 0, "key": False}, {"proto": 2, "vi": 0, "scheme": 0, "key": False}, {"proto": 1, "vi": 1, "scheme": 0, "key": True}],
     budget=60,
     per_path=60,
-    bounds="HTTP/2 CONNECT requests: :protocol {websocket, other} x sec-websocket-version {absent, 13, 12, '8, 13'}",
+    bounds="HTTP/2 CONNECT requests: :protocol {websocket, other} x sec-websocket-version {absent, 13, 12, '8, 13'} x with or without a Sec-WebSocket-Key header (a gateway translating an HTTP/1.1 upgrade may leave it in)",
     encodes=["hypercorn/protocol/h2.py::H2Protocol._create_stream", "hypercorn/protocol/ws_stream.py::Handshake.is_valid", "hypercorn/protocol/ws_stream.py::WSStream.handle"],
     stubs=["tier B runtime", "independent h2 client"],
 )
-def h2_handshake_validation(proto: int, vi: int, scheme: int) -> bool:
+def h2_handshake_validation(proto: int, vi: int, scheme: int, key: bool) -> bool:
     """
-    pre: DOM(h2_handshake_validation, proto=proto, vi=vi, scheme=scheme)
+    pre: DOM(h2_handshake_validation, proto=proto, vi=vi, scheme=scheme, key=key)
     post: _
     """
     enter()
@@ -156,6 +156,9 @@ def h2_handshake_validation(proto: int, vi: int, scheme: int) -> bool:
     elif proto == 2:
         pseudo.insert(0, (b":protocol", b"other"))
     hs = [(b"sec-websocket-version", ver)] if ver is not None else []
+    key = True if key else False
+    if key:
+        hs.append((b"sec-websocket-key", b"dGhlIHNhbXBsZSBub25jZQ=="))
     c.request(1, b"CONNECT", b"/ws", hs, end_stream=False, extra_pseudo=pseudo)
     c.request(3, b"GET", b"/sibling", end_stream=True)
     conn.feed(c.take())
@@ -169,7 +172,9 @@ def h2_handshake_validation(proto: int, vi: int, scheme: int) -> bool:
         why = f"sibling stream affected: {sib!r} {c.errors} terminated={c.terminated}"
     elif valid:
         if st.status != 200 or "websocket" not in [s["type"] for s in app.scopes]:
-            why = f"valid extended CONNECT answered {st!r}"
+            why = f"valid extended CONNECT answered {st!r} (client errors {c.errors})"
+        elif any(n in (b"connection", b"upgrade") for n, v in (st.headers or [])):
+            why = f"HTTP/1.1 upgrade headers in an HTTP/2 response: {st.headers!r}"
     elif ver == b"13" and proto != 1:
         pass  # CONNECT without :protocol=websocket but with a websocket version: treated as a websocket by hypercorn; unspecified here
     else:
@@ -179,7 +184,7 @@ def h2_handshake_validation(proto: int, vi: int, scheme: int) -> bool:
             why = "application started for an invalid handshake"
     if not why and conn.sched.errors:
         why = "exception escaped a task: %r" % (conn.sched.errors[0],)
-    return done(why == "", proto=proto, version=ver, why=why)
+    return done(why == "", proto=proto, version=ver, key=key, why=why)
 
 
 # ------------------------------------------------------------------ Handshake.accept
